@@ -10,7 +10,7 @@ import math
 from .geom import enc, well_id
 from .world import COMPONENTS, snap, snap_down
 
-LABELS = [None, None, "", "step", "mix 1", "Transfer µL", "two\nlines"]
+LABELS = [None, None, "", "step", "mix 1", "Transfer µL", "two\nlines", " padded label ", "L" * 40, "100%", "add {M9}", "{}", "50 % (v/v) }"]
 LIQUID_CLASSES = ["", "Water_DispZmax", "lc 1", "Ethanol"]
 WASHES = [1, 1, 2, 3, 4, "flush", "reuse"]
 PARTS = ["auto", "auto", "source", "destination"]
@@ -40,6 +40,27 @@ class Gen:
         self.wl_max = float(dec(world["worklist"]["max_volume"]))
         self.auto_split = world["worklist"]["auto_split"]
         self.device = world["device"]
+
+    def pick_vtype(self, op, key="volumes"):
+        """sometimes hand the volumes over as ints / numpy float32 / int64 / numpy scalars - only when every value
+        is exactly representable in that type, so that the requested volumes stay what the oracle thinks they are."""
+        import struct
+        from .geom import dec, flatten_f
+
+        if self.rng.random() > 0.25:
+            return op
+        vals = [dec(x) for x in flatten_f(op[key])]
+        if not vals or any((v != v) or v in (math.inf, -math.inf) for v in vals):
+            return op
+        whole = all(float(v).is_integer() and abs(v) < 2 ** 31 for v in vals)
+        f32 = all(struct.unpack("f", struct.pack("f", v))[0] == v for v in vals)
+        choices = ["npscalar"]
+        if whole:
+            choices += ["int", "int64"]
+        if f32:
+            choices += ["float32"]
+        op["vtype"] = self.rng.choice(choices)
+        return op
 
     def vols(self, view, li):
         """volumes the generator aims at; a state corrupted by the code under test (NaN, inf) must never crash
@@ -252,7 +273,7 @@ class Gen:
                 op["comps"] = None
         if kind in ("aspirate", "dispense") and (kw or rng.random() < 0.3):
             op["kw"] = self.gen_kw()
-        return op
+        return self.pick_vtype(op)
 
     def gen_kw(self):
         rng = self.rng
@@ -361,7 +382,7 @@ class Gen:
             op["volumes"] = enc(self.shape_like(swarg if same else list(vols), vols))
         if rng.random() < 0.3:
             op["kw"] = self.gen_kw()
-        return op
+        return self.pick_vtype(op)
 
     # ------------------------------------------------------------------ distribute
     def gen_distribute(self, view, intent="ok"):
